@@ -245,6 +245,9 @@ func randReuse(rng *vlib.Rng) (Plan, []HOp) {
 	var main []HOp
 	for g := 0; g < gens; g++ {
 		n := rng.Intn(5)
+		if rng.Chance(3) {
+			n = 256 + rng.Intn(200) // a busy first session: hundreds of records held before the login
+		}
 		post := 0
 		if rng.Chance(30) {
 			post = 1 + rng.Intn(2)
